@@ -324,3 +324,54 @@ static inline v16u8 llvm_x86_sse3_ldu_dq(u8 *p) { v16u8 r; for (int i = 0; i < 1
 #ifdef NEED_llvm_x86_avx_ldu_dq_256
 static inline v32u8 llvm_x86_avx_ldu_dq_256(u8 *p) { v32u8 r; for (int i = 0; i < 32; ++i) r.e[i] = p[i]; return r; }
 #endif
+
+/* ---- hardware gathers / scatters: lane i accesses base + sign_extend(index[i]) * scale; masked-off lanes keep src / write nothing (SDM) ---- */
+#define LL_GATHER_VEC(NAME, RT, ET, IT, SIT, N) \
+  static inline RT NAME(RT src, u8 *base, IT idx, RT mask, u8 scale) { RT r; \
+    for (int i = 0; i < N; ++i) r.e[i] = (LL_MSB_##ET(mask.e[i])) ? *(ET *)(base + (s64)(SIT)idx.e[i] * (s64)scale) : src.e[i]; return r; }
+#define LL_MSB_u32(x) (((x) >> 31) & 1)
+#define LL_MSB_u64(x) (((x) >> 63) & 1)
+#define LL_MSB_f32(x) ((F2U32(x) >> 31) & 1)
+#define LL_MSB_f64(x) ((F2U64(x) >> 63) & 1)
+#ifdef NEED_llvm_x86_avx2_gather_d_d_256
+LL_GATHER_VEC(llvm_x86_avx2_gather_d_d_256, v8u32, u32, v8u32, s32, 8)
+#endif
+#ifdef NEED_llvm_x86_avx2_gather_q_q_256
+LL_GATHER_VEC(llvm_x86_avx2_gather_q_q_256, v4u64, u64, v4u64, s64, 4)
+#endif
+#ifdef NEED_llvm_x86_avx2_gather_d_ps_256
+LL_GATHER_VEC(llvm_x86_avx2_gather_d_ps_256, v8f32, f32, v8u32, s32, 8)
+#endif
+#ifdef NEED_llvm_x86_avx2_gather_q_pd_256
+LL_GATHER_VEC(llvm_x86_avx2_gather_q_pd_256, v4f64, f64, v4u64, s64, 4)
+#endif
+#define LL_GATHER_K(NAME, RT, ET, IT, SIT, N) \
+  static inline RT NAME(RT src, u8 *base, IT idx, u64 k, u32 scale) { RT r; \
+    for (int i = 0; i < N; ++i) r.e[i] = ((k >> i) & 1) ? *(ET *)(base + (s64)(SIT)idx.e[i] * (s64)scale) : src.e[i]; return r; }
+#define LL_SCATTER_K(NAME, VT, ET, IT, SIT, N) \
+  static inline void NAME(u8 *base, u64 k, IT idx, VT v, u32 scale) { \
+    for (int i = 0; i < N; ++i) if ((k >> i) & 1) *(ET *)(base + (s64)(SIT)idx.e[i] * (s64)scale) = v.e[i]; }
+#ifdef NEED_llvm_x86_avx512_mask_gather_dpi_512
+LL_GATHER_K(llvm_x86_avx512_mask_gather_dpi_512, v16u32, u32, v16u32, s32, 16)
+#endif
+#ifdef NEED_llvm_x86_avx512_mask_gather_qpq_512
+LL_GATHER_K(llvm_x86_avx512_mask_gather_qpq_512, v8u64, u64, v8u64, s64, 8)
+#endif
+#ifdef NEED_llvm_x86_avx512_mask_gather_dps_512
+LL_GATHER_K(llvm_x86_avx512_mask_gather_dps_512, v16f32, f32, v16u32, s32, 16)
+#endif
+#ifdef NEED_llvm_x86_avx512_mask_gather_qpd_512
+LL_GATHER_K(llvm_x86_avx512_mask_gather_qpd_512, v8f64, f64, v8u64, s64, 8)
+#endif
+#ifdef NEED_llvm_x86_avx512_mask_scatter_dpi_512
+LL_SCATTER_K(llvm_x86_avx512_mask_scatter_dpi_512, v16u32, u32, v16u32, s32, 16)
+#endif
+#ifdef NEED_llvm_x86_avx512_mask_scatter_qpq_512
+LL_SCATTER_K(llvm_x86_avx512_mask_scatter_qpq_512, v8u64, u64, v8u64, s64, 8)
+#endif
+#ifdef NEED_llvm_x86_avx512_mask_scatter_dps_512
+LL_SCATTER_K(llvm_x86_avx512_mask_scatter_dps_512, v16f32, f32, v16u32, s32, 16)
+#endif
+#ifdef NEED_llvm_x86_avx512_mask_scatter_qpd_512
+LL_SCATTER_K(llvm_x86_avx512_mask_scatter_qpd_512, v8f64, f64, v8u64, s64, 8)
+#endif
